@@ -39,6 +39,17 @@ PROPOSED_KNOWN = [
              "&optimize.CG{}) - CG's default Linesearcher is MoreThuente - never returns (also BFGS / LBFGS with "
              "Linesearcher: &MoreThuente{}; also with NaN instead of +Inf). Backtracking and Bisection handle the same "
              "objective (ErrLinesearcherFailure or convergence)."},
+    {"id": "C19-LS2", "status": "known",
+     "match": r"^linesearch:trace-rejected:(direct|min):morethuente-bounds:(finite|nonfinF)$",
+     "what": "optimize.MoreThuente.Init clamps the first trial step into [MinimumStep, MaximumStep] privately "
+             "(morethuente.go Init: 'if step < mt.MinimumStep { step = mt.MinimumStep }; if step > mt.MaximumStep ...'), "
+             "but the Linesearcher interface cannot return it and LinesearchMethod.initNextLinesearch (linesearch.go) "
+             "evaluates at the NextDirectioner's unclamped step: MoreThuente then judges phi(step_unclamped) as if it "
+             "were phi(step_clamped). Observed: BFGS (NextDirection returns 1) with &MoreThuente{DecreaseFactor: 1e-4, "
+             "MaximumStep: 0.75}: the point at step 1 satisfies Armijo and the curvature condition, Iterate returns "
+             "ErrLinesearcherBound (and a step above MaximumStep was evaluated); GradientDescent with "
+             "&MoreThuente{DecreaseFactor: 1e-4, CurvatureFactor: 0.5, MinimumStep: 0.05} and an initial step below 0.05: "
+             "MajorIteration is returned with step 0.05 although the evaluated (and accepted) step is the smaller one."},
 ]
 
 
@@ -94,7 +105,7 @@ def run_ls(ctx):
     # function value (runs fed a non-finite gradient are counted, not judged)
     per = 12 if th else 2
     for mode in ("direct", "min"):
-        for kind in ("backtracking", "bisection", "morethuente"):
+        for kind in ("backtracking", "bisection", "morethuente", "morethuente-bounds"):
             for cls in ("finite", "nonfinF"):
                 thunks.append(lambda mode=mode, kind=kind, cls=cls: _r3(
                     ctx, b, "%s-%s-%s" % (mode, kind, cls), "optimize/LineSearchTrace.tla", "optimize/LineSearchTrace.cfg",
